@@ -99,6 +99,14 @@ func Items(t *Tree, k int) «Iter[int]» { return t.Items(k) }
 
 func (r Rcv) Items(k int) «Iter[int]» { return (&Tree{[]int{r.base, k}}).Items(1) }
 
+// the element type of a generator is itself the iterator type, written out
+func GenOfGens(n int) «Iter[«Iter[int]»]» {
+	for i := 0; i < n; i++ {
+		«Yield»((Rcv{i * 10}).Gen(2))
+	}
+	return nil
+}
+
 // delegation to a parameter whose declared type is an alias of the iterator type
 func GenViaAlias(it IntIt, k int) «Iter[int]» {
 	«YieldFrom»(it)
@@ -126,6 +134,7 @@ func GenOverPkgVar(k int) «Iter[int]» {
 		"func (r Rcv) Gen(n int) «Iter[int]» {\n", "func (r Rcv) Gen(n int) «Iter[int]» {\n\treturn refco.Go(func(ʏ *refco.Y[int]) {\n",
 		"func (r *Rcv) GenPtr(n int) (_ «Iter[int]») {\n", "func (r *Rcv) GenPtr(n int) «Iter[int]» {\n\treturn refco.Go(func(ʏ *refco.Y[int]) {\n",
 		"func GenOverPkgVar(k int) «Iter[int]» {\n", "func GenOverPkgVar(k int) «Iter[int]» {\n\treturn refco.Go(func(ʏ *refco.Y[int]) {\n",
+		"func GenOfGens(n int) «Iter[«Iter[int]»]» {\n", "func GenOfGens(n int) «Iter[«Iter[int]»]» {\n\treturn refco.Go(func(ʏ *refco.Y[«Iter[int]»]) {\n",
 		"func Walk(t *Tree) «Iter[int]» {\n", "func Walk(t *Tree) «Iter[int]» {\n\treturn refco.Go(func(ʏ *refco.Y[int]) {\n",
 		"func (t *Tree) Items(k int) «Iter[int]» {\n", "func (t *Tree) Items(k int) «Iter[int]» {\n\treturn refco.Go(func(ʏ *refco.Y[int]) {\n",
 		"func GenViaAlias(it IntIt, k int) «Iter[int]» {\n", "func GenViaAlias(it IntIt, k int) «Iter[int]» {\n\treturn refco.Go(func(ʏ *refco.Y[int]) {\n",
@@ -289,6 +298,28 @@ func UseAlias(a, b int) int {
 	return vrt.V(%d, s+drainAll((Rcv{a}).Items(b)))
 }
 `, tag())
+	sameName += fmt.Sprintf(`
+func UseGenOfGens(a, b int) int {
+	s := 0
+	var kept []«Iter[int]»
+	for it := range «RANGE(GenOfGens(3))» {
+		if it.MoveNext() {
+			s = s*5 + it.Current()
+		}
+		for v := range «RANGE(it)» {
+			s = s*5 + v
+			if v == a {
+				break
+			}
+		}
+		kept = append(kept, it)
+	}
+	for _, it := range kept {
+		s = s*5 + drainAll(it)
+	}
+	return vrt.V(%d, s+b)
+}
+`, tag())
 	src = []string{common, genSrc, users, alias, sameName}
 	ref = []string{common, genRef, users, alias, sameName}
 	small := []int{-1, 0, 1, 2, 3, 5}
@@ -297,6 +328,7 @@ func UseAlias(a, b int) int {
 		{Name: "UseRebind", Params: []string{"a", "b"}, Args: [][]int{small, small}, Feat: []string{"pull_helper_closures_over_rebound_iterator_variable"}},
 		{Name: "UseNested", Params: []string{"a", "b"}, Args: [][]int{small, small}, Feat: []string{"nested_consumer_ranges"}},
 		{Name: "UseAlias", Params: []string{"a", "b"}, Args: [][]int{small, small}, Feat: []string{"alias_of_the_iterator_type_as_variable_field_and_parameter_type"}},
+		{Name: "UseGenOfGens", Params: []string{"a", "b"}, Args: [][]int{small, small}, Feat: []string{"generator_whose_element_type_is_the_iterator_type_written_out"}},
 		{Name: "UseSameName", Params: []string{"a", "b"}, Args: [][]int{small, small}, Feat: []string{"generator_and_plain_forwarder_declared_under_one_name"}},
 		{Name: "UseAssignTargets", Params: []string{"a", "b"}, Args: [][]int{small, small}, Feat: []string{"consumer_range_assign_form_onto_index_field_and_pointer_operands"}},
 	}
@@ -333,6 +365,7 @@ func delegTemplates(r *prng.R, tag func() int) (src, ref []string, funcs []*Func
 	all []«Iter[int]»
 	byk map[int]«Iter[int]»
 	nxt *feed
+	base int
 }
 
 func slot(k int) int { return ((k % 2) + 2) % 2 }
@@ -361,6 +394,14 @@ func (f *feed) drain(k int) «Iter[int]» {
 	return nil
 }
 
+// a generator that only forwards: its single statement delegates to a generator call whose
+// operands are plain field reads; they are read when the statement is reached (first
+// advance), not when fwdNums is called
+func fwdNums(f *feed, n int) (_ «Iter[int]») {
+	«YieldFrom»(dnums(f.base, n))
+	return
+}
+
 func (f feed) drainByValue(k int) «Iter[int]» {
 	for v := range «RANGE(f.cur)» {
 		vrt.E(%[2]d, v)
@@ -374,7 +415,9 @@ func (f feed) drainByValue(k int) «Iter[int]» {
 		"func dnums(from, n int) «Iter[int]» {\n", "func dnums(from, n int) «Iter[int]» {\n\treturn refco.Go(func(ʏ *refco.Y[int]) {\n",
 		"func (f *feed) drain(k int) «Iter[int]» {\n", "func (f *feed) drain(k int) «Iter[int]» {\n\treturn refco.Go(func(ʏ *refco.Y[int]) {\n",
 		"func (f feed) drainByValue(k int) «Iter[int]» {\n", "func (f feed) drainByValue(k int) «Iter[int]» {\n\treturn refco.Go(func(ʏ *refco.Y[int]) {\n",
+		"func fwdNums(f *feed, n int) (_ «Iter[int]») {\n", "func fwdNums(f *feed, n int) «Iter[int]» {\n\treturn refco.Go(func(ʏ *refco.Y[int]) {\n",
 		"\treturn nil\n}\n", "\treturn\n\t})\n}\n",
+		"\treturn\n}\n", "\treturn\n\t})\n}\n",
 	).Replace(genSrc)
 	users := fmt.Sprintf(`func mkFeed(base int) *feed {
 	return &feed{
@@ -422,11 +465,27 @@ func UseFeedByValue(a, b int) int {
 	return vrt.V(%[4]d, s)
 }
 `, tag(), tag(), tag(), tag())
+	users += fmt.Sprintf(`
+func UseFwd(a, b int) int {
+	f := &feed{base: a}
+	it := fwdNums(f, 3)
+	f.base = b * 10 // before the first advance
+	s := 0
+	for v := range «RANGE(it)» {
+		s = s*3 + v
+	}
+	var nf *feed
+	never := fwdNums(nf, 1) // never advanced: nothing of its body runs, not even the nil dereference
+	_ = never
+	return vrt.V(%d, s)
+}
+`, tag())
 	src = []string{common, genSrc, users}
 	ref = []string{common, genRef, users}
 	small := []int{-1, 0, 1, 2, 3, 5, 8}
 	funcs = []*Func{
 		{Name: "UseFeed", Params: []string{"a", "b"}, Args: [][]int{small, small}, Feat: []string{"yieldfrom_operand_field_index_mapelem_deref_reinstalled_by_consumer_mid_delegation"}},
+		{Name: "UseFwd", Params: []string{"a", "b"}, Args: [][]int{small, small}, Feat: []string{"forwarding_generator_operands_read_at_first_advance_not_at_call"}},
 		{Name: "UseFeedByValue", Params: []string{"a", "b"}, Args: [][]int{small, small}, Feat: []string{"yieldfrom_operand_through_value_receiver_copy_and_shared_pointer"}},
 	}
 	return
@@ -451,6 +510,20 @@ type subBox struct {
 	genSrc := fmt.Sprintf(`func subsRange2(xs []int) «Iter[SubIt]» {
 	for k, v := range xs {
 		«Yield»(`+lit("\t\t\t«Yield»(k)\n\t\t\t«Yield»(v)\n\t\t\tvrt.E(%[1]d, k, v)\n\t\t\t«Yield»(k*10 + v)\n")+`)
+	}
+	return nil
+}
+
+// the element type is WRITTEN as the iterator type (not through the alias)
+func subsDirect(n int) «Iter[«Iter[int]»]» {
+	for i := 0; i < n; i++ {
+		k := i * 3
+		«Yield»(func() «Iter[int]» {
+			«Yield»(k)
+			k++
+			«Yield»(k)
+			return nil
+		}())
 	}
 	return nil
 }
@@ -492,6 +565,7 @@ func subsBodyVar(n int) «Iter[subBox]» {
 `, tag(), tag())
 	genRef := strings.NewReplacer(
 		"func subsRange2(xs []int) «Iter[SubIt]» {\n", "func subsRange2(xs []int) «Iter[SubIt]» {\n\treturn refco.Go(func(ʏ *refco.Y[SubIt]) {\n",
+		"func subsDirect(n int) «Iter[«Iter[int]»]» {\n", "func subsDirect(n int) «Iter[«Iter[int]»]» {\n\treturn refco.Go(func(ʏ *refco.Y[«Iter[int]»]) {\n",
 		"func subsRange1(xs []int) «Iter[SubIt]» {\n", "func subsRange1(xs []int) «Iter[SubIt]» {\n\treturn refco.Go(func(ʏ *refco.Y[SubIt]) {\n",
 		"func subsInt(n int) «Iter[SubIt]» {\n", "func subsInt(n int) «Iter[SubIt]» {\n\treturn refco.Go(func(ʏ *refco.Y[SubIt]) {\n",
 		"func subsString(s string) «Iter[SubIt]» {\n", "func subsString(s string) «Iter[SubIt]» {\n\treturn refco.Go(func(ʏ *refco.Y[SubIt]) {\n",
@@ -503,7 +577,11 @@ func subsBodyVar(n int) «Iter[subBox]» {
 	users := fmt.Sprintf(`func collectSubs(which, n int) []«Iter[int]» {
 	var its []«Iter[int]»
 	xs := []int{n, n + 1, n * 2, 7}
-	switch ((which %% 5) + 5) %% 5 {
+	switch ((which %% 6) + 6) %% 6 {
+	case 5:
+		for it := range «RANGE(subsDirect(3))» {
+			its = append(its, it)
+		}
 	case 0:
 		for it := range «RANGE(subsRange2(xs))» {
 			its = append(its, it)
